@@ -12,7 +12,7 @@ RULE = ("peak-only series: exhaustive over the 5-level alphabet {-2..2} up to le
         "measures: random records, b in (0.05, 1], cut_off in [0, 0.1], scalar and array b (Float twin, budget 1e-9). "
         "distinct = hash of the series (+parameters); non-trivial = length >= 3 and not constant")
 TIE = "correspondence (hand models Model/Peaks.lean, Model/PowerLaw.lean)"
-PROP_MODULES = ['C13', 'C13PowerLaw']
+PROP_MODULES = ['C13', 'C13PowerLaw', 'C13Scale']
 NOT_PROVED = ["pow rounding in the power-law measures (Float twin vs impl, measured)",
               "inverse relation for cut_off > 0 (approximate by construction; evaluated numerically only)"]
 
@@ -164,6 +164,25 @@ def power_law(ctx):
         gm = im.calc_cyc_amp_gm_arrays_w_power_law(v, v, n_cyc, b)
         ctx.oracle('C13.d two identical components: combined == 2^b * single', bool(np.allclose(comb, 2 ** b * am, rtol=1e-9, atol=1e-300)), inputs)
         ctx.oracle('C13.d two identical components: geometric mean == single', bool(np.allclose(gm, am, rtol=1e-9, atol=1e-300)), inputs)
+        if i % 3 == 0:
+            # the same numbers in integer / single-precision / list containers: all four functions must return the same series
+            vi = gen.int_record(rng, n, -9, 9)
+            if len(set(vi.tolist())) >= 3 and float(np.max(np.abs(vi))) > 0:
+                a_r = float(np.max(np.abs(vi))) * 0.65
+                ref = [im.calc_n_cyc_array_w_power_law(vi, a_r, b, cut_off=cut), im.calc_cyc_amp_array_w_power_law(vi, n_cyc, b),
+                       im.calc_cyc_amp_gm_arrays_w_power_law(vi, vi[::-1].copy(), n_cyc, b),
+                       im.calc_cyc_amp_combined_arrays_w_power_law(vi, vi[::-1].copy(), n_cyc, b)]
+                for lab, c in gen.container_variants(vi, floats32=False, arrays_only=True):   # float32 records are computed in single precision; calc_n_cyc_… rejects lists (TypeError from abs) on the pinned tree
+                    ctx.hist('powerlaw/container/' + lab)
+                    c2 = c[::-1] if not isinstance(c, np.ndarray) else c[::-1].copy()
+                    got = [call_impl(im.calc_n_cyc_array_w_power_law, c, a_r, b, cut_off=cut), call_impl(im.calc_cyc_amp_array_w_power_law, c, n_cyc, b),
+                           call_impl(im.calc_cyc_amp_gm_arrays_w_power_law, c, c2, n_cyc, b),
+                           call_impl(im.calc_cyc_amp_combined_arrays_w_power_law, c, c2, n_cyc, b)]
+                    for nm, r0, g in zip(('n_cyc', 'cyc_amp', 'gm', 'combined'), ref, got):
+                        ctx.oracle('C13.d power-law series do not depend on the container / dtype holding the record (%s)' % nm,
+                                   g[0] == 'ok' and np.shape(g[1]) == np.shape(r0) and bool(np.allclose(np.asarray(g[1], dtype=float), r0, rtol=1e-9, atol=1e-300)),
+                                   {'values': vi, 'container': lab, 'b': b, 'cut_off': cut, 'a_ref': a_r, 'n_cyc': n_cyc},
+                                   detail={'got': g[1] if g[0] != 'ok' else np.asarray(g[1], dtype=float).reshape(-1)[-3:], 'want_tail': np.asarray(r0).reshape(-1)[-3:]})
         if i % 5 == 0:
             bb = np.array([b, min(1.0, b * 1.5)])
             ra2 = im.calc_cyc_amp_array_w_power_law(v, n_cyc, bb)
